@@ -1,3 +1,4 @@
 //! Reference models, written from the property statements and the README.
 pub mod decoder;
 pub mod utf8;
+pub mod tokens;
